@@ -331,6 +331,49 @@ def r084(an, rep, rule="R08.4"):
     raises = any(isinstance(st, ast.Raise) for st in rest)
     rep.add(rule, f"{cur.qual}::unknown type", raises, w0,
             "an unknown constant type raises" if raises else "an unknown constant type falls through without raising")
+    # semantic check: one witness per cell of the partition the key induces on scalars (type, nan, sign bit, zero) and on containers of them
+    import math
+    from sa.feval import FevalError, PureEval
+
+    def resolve(name):
+        r = prog.resolve_global(cur.module, name, cur)
+        if r and r[0] == "func":
+            return r[1].node
+        return None
+    pe = PureEval(resolve, {"CodeData": type("CodeData", (), {}), "NotImplementedError": NotImplementedError})
+    nan, nnan = float("nan"), math.copysign(float("nan"), -1.0)
+    W = [("nan", nan), ("-nan", nnan), ("0.0", 0.0), ("-0.0", -0.0), ("1.0", 1.0), ("-1.0", -1.0), ("1", 1), ("True", True), ("0", 0), ("False", False),
+         ("inf", float("inf")), ("'a'", "a"), ("b'a'", b"a"), ("None", None), ("...", Ellipsis),
+         ("0j", complex(0.0, 0.0)), ("-0j", complex(0.0, -0.0)), ("(-0.0+0j)", complex(-0.0, 0.0)), ("complex(nan,0)", complex(nan, 0.0)), ("complex(-nan,0)", complex(nnan, 0.0)),
+         ("(1,)", (1,)), ("(True,)", (True,)), ("(1.0,)", (1.0,)), ("(0.0,)", (0.0,)), ("(-0.0,)", (-0.0,)), ("(nan,)", (nan,)), ("(-nan,)", (nnan,)),
+         ("frozenset({1})", frozenset({1})), ("frozenset({True})", frozenset({True})), ("frozenset({0.0})", frozenset({0.0})), ("frozenset({-0.0})", frozenset({-0.0}))]
+
+    def refkey(v):
+        if isinstance(v, float):
+            return ("float", "nan") if math.isnan(v) else ("float", v, math.copysign(1.0, v))
+        if isinstance(v, complex):
+            return ("complex", refkey(v.real), refkey(v.imag))
+        if isinstance(v, tuple):
+            return ("tuple",) + tuple(refkey(x) for x in v)
+        if isinstance(v, frozenset):
+            return ("frozenset", frozenset(refkey(x) for x in v))
+        return (type(v).__name__, v)
+    try:
+        keys = [(nm, pe.call(kf.node, v), refkey(v)) for nm, v in W]
+    except FevalError as ex:
+        raise AnalysisError(f"{kf.qual}: key function not evaluable on witness constants: {ex}")
+    badpairs = []
+    for i in range(len(keys)):
+        for j in range(i + 1, len(keys)):
+            try:
+                same = keys[i][1] == keys[j][1]
+            except Exception:
+                same = False
+            want = keys[i][2] == keys[j][2]
+            if same != want:
+                badpairs.append(f"{keys[i][0]} and {keys[j][0]} are {'identified' if same else 'kept apart'}, CPython's constant table (with all NaNs identified) {'keeps them apart' if same else 'identifies them'}")
+    rep.add(rule, f"{kf.qual}::witness constants are partitioned like CPython's constant table", not badpairs, loc(kf.module, kf.node),
+            "; ".join(badpairs[:3]) if badpairs else f"{len(W)} witness constants ({len(W) * (len(W) - 1) // 2} pairs): key equality == CPython identity with NaNs identified")
     # CodeData arm of the outer key function
     if kf is not cur:
         arms2, _ = isinstance_arms(kf, kf.params[0])
